@@ -958,6 +958,191 @@ func scenarioStaleHigherTermReplica(r *vh.Rand) (string, []string) {
 	return g.c.Header(), g.ops
 }
 
+// scenario 17: two full replicas and a witness; the leader proposes the removal of the other
+// full replica, which acknowledges it but never learns that it committed; the leader applies
+// the removal and is cut off; the removed replica is elected by the witness (which lags) and
+// commits a write; a read is then asked of the old leader, now the only full member it knows.
+func scenarioOnlyFullMemberRead(r *vh.Rand) (string, []string) {
+	g := newScenarioGen(r, 2, uint64(6+r.Intn(3)), false, false)
+	if !g.elect(1, nil) {
+		return g.c.Header(), g.ops
+	}
+	g.nextKey++
+	g.cc(1, uint64(pb.AddWitness), 3)
+	g.update(1)
+	g.settle(nil)
+	for _, k := range g.liveIDs() {
+		g.update(k)
+		g.apply(k, 100)
+	}
+	g.settle(nil)
+	g.do("START 3 W . -")
+	for i := 0; i < 4 && !g.Stopped; i++ {
+		g.do("T 1")
+		g.update(1)
+		g.settle(nil)
+		for _, k := range g.liveIDs() {
+			g.update(k)
+			g.apply(k, 100)
+		}
+	}
+	g.settle(nil)
+	// the witness is cut off; RemoveNode(2) commits with 2's acknowledgement
+	g.nextKey++
+	g.cc(1, uint64(pb.RemoveNode), 2)
+	g.update(1)
+	g.dropPool(func(m pb.Message) bool { return m.To == 3 || m.From == 3 })
+	g.settle(func(m pb.Message) bool { return m.Type == pb.Replicate && m.From == 1 && m.To == 2 })
+	g.do(fmt.Sprintf("U 2 1 %d", g.c.Nodes[2].Applied))
+	g.settle(func(m pb.Message) bool { return m.Type == pb.ReplicateResp && m.From == 2 && m.To == 1 })
+	g.update(1)
+	g.apply(1, 100) // the leader applies the removal: it is the only full member left
+	g.dropPool(func(m pb.Message) bool { return true })
+	// 2 (removal unapplied, uncommitted in its view) is elected by the witness and commits a write
+	hold := map[uint64]bool{2: true}
+	t0 := g.term(2)
+	g.tickUntil(2, func() bool { return g.role(2) == 1 && g.term(2) > t0 }, 80)
+	side := only(2, 3)
+	g.settleHold(side, hold)
+	if !g.Stopped && g.role(2) == 3 {
+		g.propose(2)
+		g.settleHold(side, hold)
+		g.do(fmt.Sprintf("U 2 1 %d", g.c.Nodes[2].Applied))
+		g.settleHold(side, hold)
+	}
+	g.dropPool(func(m pb.Message) bool { return true })
+	// a read on the old leader
+	g.nextKey++
+	g.do(fmt.Sprintf("R 1 %d 1", g.nextKey))
+	g.update(1)
+	g.dropPool(func(m pb.Message) bool { return m.To == 2 || m.From == 2 })
+	g.settle(only(1, 3))
+	g.update(1)
+	return g.c.Header(), g.ops
+}
+
+// scenario 18: a membership change is committed; Replicate messages to follower 2 are delayed,
+// the leader takes a snapshot and compacts, 2 is reported unreachable and is sent the snapshot;
+// the delayed Replicate messages overtake the snapshot, so 2 already holds (and has
+// acknowledged) entries beyond the snapshot index when the matching snapshot arrives while its
+// applied index is still below the membership change.
+func scenarioMatchingSnapshotBehindLog(r *vh.Rand) (string, []string) {
+	g := newScenarioGen(r, 3, uint64(6+r.Intn(3)), false, false)
+	if !g.elect(1, nil) {
+		return g.c.Header(), g.ops
+	}
+	hold := map[uint64]bool{2: true}
+	not2 := func(m pb.Message) bool { return m.To != 2 && m.From != 2 }
+	g.nextKey++
+	g.cc(1, uint64(pb.AddNonVoting), 4)
+	g.update(1)
+	g.settleHold(not2, hold)
+	g.update(1)
+	g.apply(1, 100)
+	g.propose(1)
+	g.settleHold(not2, hold)
+	g.propose(1)
+	g.settleHold(not2, hold)
+	for _, k := range []uint64{1, 3} {
+		g.update(k)
+		g.apply(k, 100)
+	}
+	g.settleHold(not2, hold)
+	// everything for 2 is still in flight; the leader snapshots and compacts
+	g.snapshot(1, 2)
+	// 2 is reported unreachable: retry state; the next heartbeat response makes the leader probe
+	g.do("UN 1 2")
+	g.update(1)
+	var delayed []pb.Message
+	for _, m := range g.Pool {
+		if m.To == 2 && m.Type == pb.Replicate {
+			delayed = append(delayed, m)
+		}
+	}
+	_ = delayed
+	// the delayed Replicate messages arrive first (2 appends and acknowledges, applies nothing)
+	g.settleHold(func(m pb.Message) bool { return m.To == 2 && m.Type == pb.Replicate }, hold)
+	// acknowledgements are lost; heartbeats make the leader send again: from a compacted position
+	g.dropPool(func(m pb.Message) bool { return m.From == 2 })
+	isSnap := func(m pb.Message) bool { return m.Type == pb.InstallSnapshot }
+	for i := 0; i < 6 && !g.Stopped; i++ {
+		g.do("T 1")
+		g.update(1)
+		g.settleHold(func(m pb.Message) bool { return !isSnap(m) && (not2(m) || m.Type == pb.Heartbeat || m.Type == pb.HeartbeatResp) }, hold)
+		g.dropPool(func(m pb.Message) bool { return m.From == 2 && m.Type == pb.ReplicateResp })
+	}
+	// whatever snapshot was sent to 2 arrives now, applied index still behind
+	g.settleHold(isSnap, hold)
+	g.settleHold(nil, hold)
+	// the leader is gone; 2 and 3 go on
+	g.dropPool(func(m pb.Message) bool { return true })
+	t0 := g.term(2)
+	g.tickUntil(2, func() bool { return g.role(2) == 1 && g.term(2) > t0 }, 80)
+	g.settleHold(only(2, 3), hold)
+	return g.c.Header(), g.ops
+}
+
+// scenario 19: a witness is added and later removed while replica 3 is cut off (3 knows the
+// witness); the leader compacts its log and 3 catches up through a snapshot whose membership
+// has no witness and no non-voting member.
+func scenarioSnapshotWithoutWitness(r *vh.Rand) (string, []string) {
+	g := newScenarioGen(r, 3, uint64(6+r.Intn(3)), false, false)
+	if !g.elect(1, nil) {
+		return g.c.Header(), g.ops
+	}
+	g.nextKey++
+	g.cc(1, uint64(pb.AddWitness), 4)
+	g.update(1)
+	g.settle(nil)
+	for _, k := range g.liveIDs() {
+		g.update(k)
+		g.apply(k, 100)
+	}
+	g.settle(nil)
+	g.do("START 4 W . -")
+	for i := 0; i < 4 && !g.Stopped; i++ {
+		g.do("T 1")
+		g.update(1)
+		g.settle(nil)
+		for _, k := range g.liveIDs() {
+			g.update(k)
+			g.apply(k, 100)
+		}
+	}
+	g.settle(nil)
+	not3 := func(m pb.Message) bool { return m.To != 3 && m.From != 3 }
+	g.dropPool(func(m pb.Message) bool { return true })
+	g.nextKey++
+	g.cc(1, uint64(pb.RemoveNode), 4)
+	g.update(1)
+	g.settle(not3)
+	for _, k := range []uint64{1, 2} {
+		g.update(k)
+		g.apply(k, 100)
+	}
+	g.settle(not3)
+	g.propose(1)
+	g.settle(not3)
+	for _, k := range []uint64{1, 2} {
+		g.update(k)
+		g.apply(k, 100)
+	}
+	g.snapshot(1, 0)
+	g.dropPool(func(m pb.Message) bool { return true })
+	// the partition heals: 3 is behind the compacted log and gets the snapshot
+	for i := 0; i < 8 && !g.Stopped; i++ {
+		g.do("T 1")
+		g.update(1)
+		g.settle(nil)
+		for _, k := range g.liveIDs() {
+			g.update(k)
+			g.apply(k, 100)
+		}
+	}
+	g.settle(nil)
+	return g.c.Header(), g.ops
+}
+
 var scenarios = []func(r *vh.Rand) (string, []string){
 	scenarioTransferWithUnappliedChange,
 	scenarioVoteRace, scenarioTransferRemove, scenarioDeposedLeaderRead, scenarioDelayedConfirmation,
@@ -965,4 +1150,5 @@ var scenarios = []func(r *vh.Rand) (string, []string){
 	scenarioMinorityLeaderRepeatedAcks, scenarioSingleVoterWithWitnesses, scenarioRemovedLeaderDuringTransfer,
 	scenarioNewMemberMostUpToDate, scenarioCandidateGetsSnapshot, scenarioSnapshotReportedButLost,
 	scenarioUnappliedChangesAndTimeout, scenarioRestartedLeaderPendingChange, scenarioStaleHigherTermReplica,
+	scenarioOnlyFullMemberRead, scenarioMatchingSnapshotBehindLog, scenarioSnapshotWithoutWitness,
 }
